@@ -16,7 +16,8 @@ reference model harness/models/gel.py, checking after every operation:
      created.
 
   G  ("turns") full orchestrator turns: state['graph'] after each turn == the same operations applied through the
-     direct API (itself checked by A-E), also across a process restart (fresh state boot-loading the snapshot the
+     direct API (itself checked by A-E) -- the observation over ALL hits T2 returned that turn (captured at the stage
+     hook; T2 lists them in ranking order, not score order), not over what the call site forwarded -- also across a process restart (fresh state boot-loading the snapshot the
      previous turn wrote == API round trip); gate off: no state['graph'] (a pre-existing one bit-identical), no gel.jsonl;
   H  snapshot round trip (write_snapshot + load_latest_snapshot) of a graph satisfying A: same keys, same endpoints;
      boot load of a legacy body: A up to the order of src/dst inside a record, no pair that was not stored.  The
@@ -58,7 +59,8 @@ RULE = ("Histories over {observe(items), tick(dt), merge pass/direct, split pass
         "tick = >=1 edge dropped and >=1 edge kept-and-decayed; maint = >=1 merge or split record applied and >=1 "
         "promotion applied; gate = >=3 ops incl. an observation that would have paired items and a direct apply; "
         "turns (1-3 real Orchestrator.run_turn turns over 2-6 generated episodes, real T2 scores, maintenance flags "
-        "random, usually a pre-existing graph with strong pairs / weak bridges / ids sorting before 'c::', process restarts "
+        "random, t2.ranking blends with recency / importance over episodes of different age so that T2's listing is not in "
+        "score order while observe_top_k is below the hit count, usually a pre-existing graph with strong pairs / weak bridges / ids sorting before 'c::', process restarts "
         "that boot-load the previous turn's snapshot) = gate on and >=1 pair updated or >=1 maintenance record applied, or "
         "gate off and T2 returned >=2 items. "
         "Distinct = digest of the whole history / case.")
@@ -1154,6 +1156,17 @@ def turn_cases(draw):
             g["split"]["min_component_size"] = 2
             g["split"]["enabled"] = draw(_pick(True, True, True, False))
             g["promotion"]["enabled"] = draw(_pick(True, True, True, False))
+    if draw(_pick(True, True, False)):
+        # T2 lists its hits in RANKING order (cosine blended with recency / importance) while GEL thresholds and sorts on
+        # the raw score: old episodes with high cosines next to fresh / important ones, fewer top-k slots than hits
+        case["rank"] = {"ranking": draw(_pick({"alpha_sim": 0.75, "beta_recency": 0.2, "gamma_importance": 0.05},
+                                              {"alpha_sim": 0.5, "beta_recency": 0.5, "gamma_importance": 0.0},
+                                              {"alpha_sim": 0.5, "beta_recency": 0.0, "gamma_importance": 0.5},
+                                              {"alpha_sim": 0.34, "beta_recency": 0.33, "gamma_importance": 0.33})),
+                        "ep_meta": [[draw(_pick(0, 0, 1, 300, 400, 3000)), draw(_pick(0.0, 0.0, 1.0, 0.5))] for _ in episodes]}
+        g["observe_top_k"] = draw(_pick(1, 2, 2, 3, 3, 4))
+        g["coactivation_threshold"] = min(g["coactivation_threshold"], draw(_pick(0.2, 0.0, 0.3)))
+        g["pair_cap_per_obs"] = max(g["pair_cap_per_obs"], draw(_pick(1, 3, 2048)))
     if g["enabled"] and len(case["turns"]) >= 2:
         # process restarts: a fresh state boot-loads the snapshot the previous turn wrote
         case["restarts"] = sorted(draw(st.lists(st.integers(2, len(case["turns"])), max_size=2, unique=True)))
@@ -1189,20 +1202,40 @@ def check_turns(case, rec=None):
     paired = 0
     with sandbox("vx_c18_") as d:
         reset_engine_globals()
-        cfg = validated_cfg({"graph": copy.deepcopy(g), "t4": {"snapshot_dir": os.path.join(d, "snap")}})
+        rank = case.get("rank") or {}
+        over = {"graph": copy.deepcopy(g), "t4": {"snapshot_dir": os.path.join(d, "snap")}}
+        if rank:
+            over["t2"] = {"ranking": dict(rank["ranking"]), "exact_recent_days": 36500}
+        cfg = validated_cfg(over)
         idx = InMemoryIndex()
         enc = DeterministicEmbeddingAdapter(dim=32)
         for i, txt in enumerate(case["episodes"]):
-            idx.add({"id": f"ep{i}", "owner": "A", "text": txt, "vec_full": enc.encode([txt])[0],
-                     "ts": "2025-06-15T00:00:00Z", "aux": {}})
+            ts, aux = "2025-06-15T00:00:00Z", {}
+            if rank:
+                from harness.world import iso_minus
+                ts = iso_minus("2025-06-15T00:00:00Z", int(rank["ep_meta"][i][0]) * 86400)
+                aux = {"importance": float(rank["ep_meta"][i][1])}
+            idx.add({"id": f"ep{i}", "owner": "A", "text": txt, "vec_full": enc.encode([txt])[0], "ts": ts, "aux": aux})
         state = {"store": build_store({}), "active_graphs": [], "mem_index": idx, "_boot_loaded": True, "version_etag": "0"}
         if pre_edges:
             state["graph"] = copy.deepcopy(shadow.graph())
         graph0 = _snap(state.get("graph"))
         core.gel_observe = spy
+        import clematis.engine.orchestrator as orch_pkg
+        real_t2 = orch_pkg.t2_semantic
+        t2_hits = []
+
+        def rec_t2(ctx, state_, text_, t1):
+            res = real_t2(ctx, state_, text_, t1)
+            if not t2_hits:  # the turn's retrieval (a later one-shot RAG retrieval is not what the turn observes)
+                t2_hits.append(list(getattr(res, "retrieved", []) or []))
+            return res
+
+        orch_pkg.t2_semantic = rec_t2
         try:
             for t, text in enumerate(case["turns"], start=1):
                 del seen[:]
+                del t2_hits[:]
                 restarted = g["enabled"] and t in restarts
                 if restarted:
                     # a new process: nothing but the snapshot directory survives (the previous turn wrote state_A.json)
@@ -1223,7 +1256,17 @@ def check_turns(case, rec=None):
                     raise Violation(f"turn {t}: the orchestrator observed retrieval {len(seen)} times", case, "turn-observe-count")
                 if not all(isinstance(r, EpisodeRef) for r in seen[0]):
                     raise RuntimeError(f"orchestrator passes items of an unexpected shape: {seen[0][:2]}")
-                items = [{"shape": "ref", "id": r.id, "score": float(r.score)} for r in seen[0]]
+                # the observe clause holds for the turn: pairs among the top-k BY SCORE of ALL hits T2 returned this turn
+                # (in whatever order T2 lists them), not of what the call site chose to forward
+                hits = t2_hits[0] if t2_hits else seen[0]
+                items = [{"shape": "ref", "id": r.id, "score": float(r.score)} for r in hits]
+                if t2_hits:
+                    shadow.flag("t2_captured")
+                    listed = [(str(r.id), float(r.score)) for r in hits]
+                    if len(listed) > g["observe_top_k"]:
+                        shadow.flag("t2_more_hits_than_topk")
+                        if listed != sorted(listed, key=lambda x: (-x[1], x[0])):
+                            shadow.flag("t2_listing_not_score_order_and_truncated")
                 ops = [{"op": "snapshot", "fresh": True}] if restarted else []
                 ops += [{"op": "observe", "items": items, "perm": list(range(len(items)))[::-1], "turn": t, "container": "list"},
                         {"op": "tick", "dt": 1, "turn": t}]
@@ -1244,6 +1287,7 @@ def check_turns(case, rec=None):
                                     f"{_brief(shadow.graph())} / meta {(shadow.graph() or {}).get('meta')}", case, "turn-diverges")
         finally:
             core.gel_observe = real_obs
+            orch_pkg.t2_semantic = real_t2
         if not g["enabled"]:
             with open(os.path.join(d, "logs", "t2.jsonl"), "r", encoding="utf-8") as f:
                 paired = max(int(json.loads(ln).get("k_returned", 0)) for ln in f if ln.strip())
